@@ -108,6 +108,15 @@ package server
 //@     invariant forall k :: 0 <= k && k < len(jobs) ==> trace.has(trace, "close", jobs[k].stop)
 //@     invariant forall k :: 0 <= k && k < iter ==> trace.has(trace, "recv", jobs[k].closed)
 
+// starting a server job serves on the job's own server, and the only tolerated failure is a real one: the error a
+// graceful stop makes ListenAndServe return (http.ErrServerClosed, also when the stop came before the start) is not a
+// crash
+//@ func spawnServerJob.lit:start
+//@   property C14
+//@   modifies trace
+//@   ensures trace == trace.ev(old(trace), "ListenAndServe", server)
+//@   assert@before:panic !(err == nil) && !(err == global("http.ErrServerClosed"))
+
 // shutting a server job down is http.Server.Shutdown (drains connections) with a background context, never Close
 //@ func spawnServerJob.lit:shutdown
 //@   property C14
@@ -137,3 +146,10 @@ package server
 //@ func spawnServerJob
 //@   property C14
 //@   ensures called("SpawnJob")
+//@   assert@before:SpawnJob arg0 == start && arg1 == shutdown
+
+// the combined job's shutdown is the literal under contract above (request all, then await all)
+//@ func CombineJobs
+//@   property C14
+//@   ensures called("SpawnJob")
+//@   assert@before:SpawnJob arg1 == shutdown
